@@ -205,9 +205,23 @@ def case(ctx, case):
     with pinned_matnet_randomness(pol) if kind in ("matnet", "matnet_ffsp") else contextlib.nullcontext():
         # ---- solo references ---------------------------------------------------------------------
         refs = []
+
+        def solo_instance(b):
+            one = td_in[b : b + 1]
+            if case.get("trim_pad") and "pad_mask" in one.keys() and "proc_times" in one.keys():
+                # the instance on its own carries only ITS operations (a file instance loaded alone); in a batch it is padded to
+                # the largest batch-mate. The amount of padding must not matter.
+                from tensordict import TensorDict
+
+                O_ = int((~one["pad_mask"][0]).sum())
+                ctx.count("c14_solo_padding_trimmed", int(one["pad_mask"].shape[1] - O_))
+                return TensorDict({"start_op_per_job": one["start_op_per_job"].clone(), "end_op_per_job": one["end_op_per_job"].clone(),
+                                   "proc_times": one["proc_times"][:, :, :O_].clone(), "pad_mask": one["pad_mask"][:, :O_].clone()}, batch_size=[1])
+            return one
+
         for b in range(m):
             try:
-                out, rec = decode(pol, env, td_in[b : b + 1], tap=True)
+                out, rec = decode(pol, env, solo_instance(b), tap=True)
             except Exception as e:
                 ctx.evaluation()
                 ctx.violation(dict(sig, q="solo_raises", exc=type(e).__name__), f"greedy decode of a single instance (batch size 1) raised {type(e).__name__}: {str(e)[:200]}", dict(row=b, n=n))
